@@ -178,13 +178,15 @@ def run(ctx):
     K_ = 2 * math.pi * 1.33 / 0.66
     geo = [(0.5, 0.1, 0.0), (-0.4, -0.2, 0.3), (0.1, 0.75, -0.2)]
     kinds = (("pair_real", [1.59, 1.59], [0.35, 0.35]), ("trimer_real", [1.59, 1.45, 1.59], [0.35, 0.2, 0.3]),
-             ("pair_absorbing", [1.59 + 0.05j, 1.5], [0.3, 0.35]))
+             ("pair_absorbing", [1.59 + 0.05j, 1.5], [0.3, 0.35]), ("pair_tilted_yz", [1.59, 1.59], [0.35, 0.35]))
     # each cluster call integrates the asymmetry adaptively (~5 s): quick keeps 5 of the 15
+    tilted = [(0.0, 0.27, -0.27), (0.0, -0.27, 0.27)]       # a pair tilted in the y-z plane: no symmetry between y > 0 and y < 0
     for kind, ns, rs in (kinds[:1] + kinds[2:] if quick else kinds):
-        cl = Spheres([Sphere(n=n_, r=r_, center=geo[i]) for i, (n_, r_) in enumerate(zip(ns, rs))])
+        pos_ = tilted if kind == "pair_tilted_yz" else geo
+        cl = Spheres([Sphere(n=n_, r=r_, center=pos_[i]) for i, (n_, r_) in enumerate(zip(ns, rs))])
         fwd = detector_points(theta=np.array([0.0]), phi=np.array([0.0]), r=1e4)
-        for psi in (((0.0, 0.4, 2.2) if kind == "pair_real" else (math.pi / 2, math.pi / 4)) if quick
-                    else (0.0, math.pi / 2, 0.4, math.pi / 4, 2.2)):
+        for psi in (((0.0, 0.4, 2.2) if kind == "pair_real" else (0.0, 0.9) if kind == "pair_tilted_yz" else (math.pi / 2, math.pi / 4))
+                    if quick else (0.0, math.pi / 2, 0.4, math.pi / 4, 2.2)):
             ctx.case(("cluster", kind, round(psi, 3)), nontrivial=True)
             px, py = math.cos(psi), math.sin(psi)
             try:
@@ -196,6 +198,20 @@ def run(ctx):
                 continue
             a = S0 @ np.array([px, -py])
             ext_fwd = 4 * math.pi / K_ ** 2 * (px * a[0] - py * a[1]).real
+            # scattering and asymmetry as solid-angle integrals of |S e|^2 over the whole sphere of directions
+            nth_, nph_ = 40, 64
+            mu_, w_ = np.polynomial.legendre.leggauss(nth_)
+            phs_ = np.arange(nph_) * 2 * math.pi / nph_
+            TH, PH = np.meshgrid(np.arccos(mu_), phs_, indexing="ij")
+            dirs = detector_points(theta=TH.ravel(), phi=PH.ravel(), r=1e4)
+            Sg = calc_scat_matrix(dirs, cl, theory=Multisphere(), medium_index=1.33, illum_wavelen=0.66).values
+            epar = px * np.cos(PH.ravel()) + py * np.sin(PH.ravel())
+            eper = px * np.sin(PH.ravel()) - py * np.cos(PH.ravel())
+            inten_ = (np.abs(Sg[:, 0, 0] * epar + Sg[:, 0, 1] * eper) ** 2 + np.abs(Sg[:, 1, 0] * epar + Sg[:, 1, 1] * eper) ** 2)
+            inten_ = inten_.reshape(nth_, nph_)
+            wgt = w_[:, None] * (2 * math.pi / nph_)
+            sca_i = float(np.sum(wgt * inten_)) / K_ ** 2
+            g_i = float(np.sum(wgt * inten_ * mu_[:, None])) / K_ ** 2 / sca_i
             real = all(isinstance(n_, float) for n_ in ns)
             ev = {"event": "ClusterCrossSections", "cls": "%s/%.3f" % (kind, psi), "layers": "cluster", "xcls": kind,
                   "oblique": bool(abs(px * py) > 1e-9), "index_real": real,
@@ -203,7 +219,8 @@ def run(ctx):
                   "mb_abs_neg_part": quant.mb(max(0.0, -cs[1]) / abs(cs[2])),
                   "mb_abs_over_ext": quant.mb(abs(cs[1]) / abs(cs[2])),
                   "sca_pos": bool(cs[0] > 0), "g_in_range": bool(-1 <= cs[3] <= 1),
-                  "mb_optical_theorem": quant.mb(abs(ext_fwd - cs[2]) / abs(cs[2]))}
+                  "mb_optical_theorem": quant.mb(abs(ext_fwd - cs[2]) / abs(cs[2])),
+                  "mb_sca_integral": quant.mb(abs(sca_i - cs[0]) / abs(cs[0])), "mb_g_integral": quant.mb(abs(g_i - cs[3]))}
             traces.append([ev])
     verdicts = tracemod.validate(ctx, "CrossSectionsTrace", traces)
     worst = {}
